@@ -46,3 +46,63 @@ def setup(E):
                         (f in result[m]) == (occurs_below(srec_input.leaf_syntenies, m, f) and anc(gain_node(f), m))), Node, Elem)""",
             ])},
         props=["C03", "C04"]))
+
+
+def _gain_sets(E):
+    """_compute_gain_sets: every family that occurs in a leaf is gained at exactly one node, the deepest common ancestor of the leaves
+    that carry it (the property's 'gained once, at the LCA of the leaves that carry it'); nothing else is gained anywhere."""
+    add = E.registry.add
+    TR = "superrec2.utils.trees"
+    add(Contract(f"{TR}:LowestCommonAncestor.__init__", kind="assumed", params={"self": "LowestCommonAncestor", "tree": "Node"},
+                 ensures=["self.tree == tree"], modifies=["self.*"],
+                 note="construction of the Euler-tour structure: part of the assumed LowestCommonAncestor core (C17), validated by its bounded stand-in", props=["C17"]))
+    # n is a common ancestor of the members of S and every common ancestor of S is an ancestor of n
+    E.spec("deepest_common", "S: Set[Node], n: Node", "Bool", """
+           forall(lambda c: implies(c in S, anc(n, c)), Node)
+           and forall(lambda m: implies(forall(lambda c: implies(c in S, anc(m, c)), Node), anc(m, n)), Node)""")
+    LS, T = "srec_input.leaf_syntenies", "srec_input.object_tree"
+    CAR = lambda c, f: f"(({c} in {LS}) and ({f} in {LS}[{c}]))"
+    add(Contract(
+        f"{M}:_compute_gain_sets", params={"srec_input": "SuperReconciliationInput"}, returns="Map[Node, Set[Elem]]",
+        requires=[
+            ("tree", f"binary({T}) and rootof({T}) == {T}"),
+            ("syntenies-on-tree-nodes", f"forall(lambda c: implies(c in {LS}, rootof(c) == {T}), Node)"),
+        ],
+        ensures=[
+            ("total", f"forall(lambda n: (n in result) == anc({T}, n), Node)"),
+            ("gained-at-the-lca-of-the-carriers", f"""forall(lambda n, f: implies((n in result) and (f in result[n]),
+                    exists(lambda c: {CAR('c', 'f')}, Node)
+                    and forall(lambda c: implies({CAR('c', 'f')}, anc(n, c)), Node)
+                    and forall(lambda m: implies(forall(lambda c: implies({CAR('c', 'f')}, anc(m, c)), Node), anc(m, n)), Node)), Node, Elem)"""),
+            ("every-family-gained", f"forall(lambda f: implies(exists(lambda c: {CAR('c', 'f')}, Node), exists(lambda n: anc({T}, n) and (f in result[n]), Node)), Elem)"),
+        ],
+        locals={"leaves_by_family": "DefaultMap[Elem, Set[Node]]", "result": "Map[Node, Set[Elem]]"},
+        loops={
+            0: LoopSpec(header="for (leaf, synteny) in srec_input.leaf_syntenies.items()", index="k", length="n", seq="P",
+                        invariants=[
+                            ("carriers-so-far", f"forall(lambda f, c: (c in leaves_by_family[f]) == ((c in {LS}) and P_idx(c) < k and (f in {LS}[c])), Elem, Node)"),
+                            ("keys", "forall(lambda f: (f in leaves_by_family) == exists(lambda c: c in leaves_by_family[f], Node), Elem)"),
+                        ]),
+            1: LoopSpec(header="for family in synteny", index="j", length="nj",
+                        invariants=[
+                            ("current", f"(leaf in {LS}) and synteny == {LS}[leaf] and P_idx(leaf) == k and P_key(k) == leaf and 0 <= k"),
+                            ("carriers-so-far", f"""forall(lambda f, c: (c in leaves_by_family[f]) == (((c in {LS}) and P_idx(c) < k and (f in {LS}[c]))
+                                    or (c == leaf and exists(lambda i: 0 <= i and i < j and synteny[i] == f, Int))), Elem, Node)"""),
+                            ("keys", "forall(lambda f: (f in leaves_by_family) == exists(lambda c: c in leaves_by_family[f], Node), Elem)"),
+                        ]),
+            2: LoopSpec(header="for (family, leaves) in leaves_by_family.items()", index="q", length="nq", seq="Q",
+                        invariants=[
+                            ("total", f"forall(lambda n: (n in result) == anc({T}, n), Node)"),
+                            ("sound", "forall(lambda n, f: implies((n in result) and (f in result[n]), (f in leaves_by_family) and Q_idx(f) < q and deepest_common(leaves_by_family[f], n)), Node, Elem)"),
+                            ("complete", f"forall(lambda f: implies((f in leaves_by_family) and Q_idx(f) < q, exists(lambda n: anc({T}, n) and (f in result[n]), Node)), Elem)"),
+                        ]),
+        },
+        props=["C03", "C04"]))
+
+
+_setup_lca = setup
+
+
+def setup(E):  # noqa: F811
+    _setup_lca(E)
+    _gain_sets(E)
